@@ -263,6 +263,13 @@ example : ConvAdj (reach false 1000 true (hist0 ++ [.serve none none, .rate (u "
   ⟨_, 1001, rfl, by decide +kernel, by decide +kernel, by decide +kernel, by decide +kernel, rfl⟩
 example : (((reach false 1000 true (hist0 ++ [.serve none none, .rate (u "b").key 0, .adv 1001])).reb.adjust 1001).servers.map
     fun p => (p.orig, p.cur)) = [(1, 1), (1, 1), (3, 3)] := by decide +kernel
+-- a continuation without administration calls (`C10_once_per_backoff`), during which the clock stays below the timer
+example : ∀ op ∈ [Op.serve none none, Op.adv 500, Op.rate (u "a").key 1, Op.serve none none], ¬ op.isAdmin := by
+  intro op h
+  simp only [List.mem_cons, List.not_mem_nil, or_false] at h
+  rcases h with rfl | rfl | rfl | rfl <;> simp [Op.isAdmin]
+example : (((reach false 1000 true (hist0 ++ [.serve none none])).applyOps [.adv 500, .serve none none]).now : Int)
+    ≤ (reach false 1000 true (hist0 ++ [.serve none none])).reb.timer := by decide +kernel
 -- `C10_range` / `C10_membership_restores` hypotheses
 example : specOf hist0 (u "c").key = some 3 := by decide +kernel
 example : ((reach false 1000 true hist0).step (.remove (u "a"))).2 = .ok := by decide +kernel
